@@ -119,6 +119,36 @@ def run(facts, rep):
             else:
                 rep.ok('E24.lex-order', inst, 'fold over min(min_index) ..= max(max_index) of then_with(cmp(self[i], other[i]))')
             continue
+        # X3 as a search: range.map(|i| cmp(self[i], other[i])).find(|o| o.is_ne()).unwrap_or(Equal)
+        if r[0] == 'call' and r[1].split('::')[-1] == 'unwrap_or' and len(r[2]) == 2 and sk(r[2][1]) == 'Ordering::Equal{}':
+            from symex import apply_closure
+            fe = None
+            for p in SymEx(b).run():
+                for e in p.calls():
+                    if e.name.split('::')[-1] == 'find' and e.site == strip(r[2][0])[3] if strip(r[2][0])[0] == 'call' else False:
+                        fe = e
+            verdict = None
+            if fe is not None and fe.pre:
+                m_ = strip(fe.pre[0])
+                preds = {sk(q.ret) for q in apply_closure(fe.args[1], [('item',)]) or [] if q.end == 'return'}
+                if m_[0] == 'call' and m_[1].split('::')[-1] == 'map' and len(m_[2]) == 2 and preds in ({"is_ne(*('item',))"}, {"is_ne(('item',))"}, {"ne(('item',), Ordering::Equal{})"}):
+                    src_s = sk(m_[2][0])
+                    steps = {sk(q.ret).replace('&', '').replace('*', '') for q in apply_closure(m_[2][1], [('item',)]) or [] if q.end == 'return'}
+                    dense = re.match(r'new\(min\(unwrap_or\(min_index\(arg([12])\), 0\), unwrap_or\(min_index\(arg([12])\), 0\)\), max\(unwrap_or\(max_index\(arg([12])\), 0\), unwrap_or\(max_index\(arg([12])\), 0\)\)\)$', src_s)
+                    if dense and steps == {"cmp(index(arg1, ('item',)), index(arg2, ('item',)))"}:
+                        if {dense.group(1), dense.group(2)} == {'1', '2'} and {dense.group(3), dense.group(4)} == {'1', '2'}:
+                            verdict = 'ok'
+                        else:
+                            verdict = 'the scanned range %s does not cover the supports of both monomials' % src_s
+                    elif dense and steps == {"cmp(index(arg2, ('item',)), index(arg1, ('item',)))"}:
+                        verdict = 'the step compares other[i] with self[i]'
+            if verdict == 'ok':
+                rep.ok('E24.lex-order', inst, 'first non-equal cmp(self[i], other[i]) over min(min_index) ..= max(max_index)')
+            elif verdict:
+                rep.violation('E24.lex-order', inst, verdict, where=b.where())
+            else:
+                rep.indet('E24: %s outside the recognised fragment: %s' % (b.defp, sk(r)[:120]))
+            continue
         # X1 fixed arity
         seq = []
         if not _chain(facts, b, r, seq):
